@@ -3,7 +3,7 @@ Lemmas/EncodeDecode.lean — the opcode part of every instruction: what `opVal` 
 the table and how the datasheet decoder reads it back; the `Encodes` predicate shared by the
 C01 / C12 theorems; the table checker (`cellOk`, `rowOk`) and what it says about one cell.
 -/
-import CoCoVerif.Lemmas.EncodeHex
+import CoCoVerif.Lemmas.EncodeFit
 import CoCoVerif.Spec.MC6809
 
 namespace CoCo.Asm
@@ -109,37 +109,172 @@ theorem decodePostByte_cons (p : Nat) (rest : Bytes) : decodePostByte (p :: rest
 
 /-! ### the statement shape of C01 (ii) -/
 
-/-- `o` translates for row `r`, the package emits `bytes` of the announced size, and the datasheet
-decoder reads `bytes` back as the operation of `r` with operand `operand`, consuming all of them -/
+/-- `o` translates for row `r`; every statement that carries row, operand and package (the statement
+`translateAll` builds) passes `fitWidth` and then emits `bytes`, as many as the package announces; and the
+datasheet decoder reads `bytes` back as the operation of `r` with operand `operand`, consuming all of them.
+The package does not wait for an address (`needsRes = false`), so for a label-free operand `fixOne`, which runs
+between `translate` and `fitWidth`, is the identity: `Encodes.through_fix` below. -/
 def Encodes (o : Operand) (r : InstrRow) (operand : Spec.MC6809.Operand) : Prop :=
-  ∃ pkg bytes, translateOperand o r = .ok pkg ∧ (∀ s : Stmt, s.pkg = pkg → stmtBytes s = some bytes) ∧
+  ∃ pkg bytes, translateOperand o r = .ok pkg ∧ pkg.needsRes = false ∧
+    (∀ s : Stmt, s.row = r → s.operand = o → s.pkg = pkg → ∃ s', fitWidth s = .ok s' ∧ stmtBytes s' = some bytes) ∧
     bytes.length = pkg.size ∧ decode bytes = some (⟨opOf r.mnemonic, operand⟩, bytes.length)
+
+/-- the statement with nothing but row, operand and package -/
+def mkStmt (r : InstrRow) (o : Operand) (p : Pkg) : Stmt := { (default : Stmt) with row := r, operand := o, pkg := p }
+
+/-- from the package level to every statement that carries the package -/
+theorem emitted_of_fitPkg {r : InstrRow} {o : Operand} {pkg p' : Pkg} {bytes : Bytes}
+    (hf : fitPkg r pkg = .ok p') (hb : pkgBytes p' = some bytes) :
+    ∀ s : Stmt, s.row = r → s.operand = o → s.pkg = pkg → ∃ s', fitWidth s = .ok s' ∧ stmtBytes s' = some bytes := by
+  intro s hr _ hp
+  subst hr hp
+  exact ⟨_, fitWidth_ok hf, by rw [stmtBytes_eq_pkgBytes]; exact hb⟩
+
+/-- and back -/
+theorem fitPkg_of_emitted {r : InstrRow} {o : Operand} {pkg : Pkg} {bytes : Bytes}
+    (h : ∀ s : Stmt, s.row = r → s.operand = o → s.pkg = pkg → ∃ s', fitWidth s = .ok s' ∧ stmtBytes s' = some bytes) :
+    ∃ p', fitPkg r pkg = .ok p' ∧ pkgBytes p' = some bytes := by
+  obtain ⟨s', hs', hb⟩ := h (mkStmt r o pkg) rfl rfl rfl
+  obtain ⟨p', hp', rfl⟩ := fitWidth_ok_iff.mp hs'
+  exact ⟨p', hp', by rw [stmtBytes_eq_pkgBytes] at hb; exact hb⟩
 
 theorem stmtBytes_of (s : Stmt) {a b c : Bytes} (h1 : emitValue s.pkg.opCode = some a)
     (h2 : emitValue s.pkg.postByte = some b) (h3 : emitValue s.pkg.additional = some c) :
     stmtBytes s = some (a ++ b ++ c) := by
   simp [stmtBytes, h1, h2, h3]
 
-/-- assembling the pieces: opcode cell `c`, post-byte bytes `pb`, additional bytes `ad` -/
+/-- the post byte as the translators build it: absent, or one byte -/
+inductive PostOk : Value → Bytes → Prop
+  | none : PostOk .none []
+  | byte {p : Nat} : p < 256 → PostOk (.numeric p (some 2) .direct false) [p]
+
+theorem PostOk.emit {v : Value} {pb : Bytes} (h : PostOk v pb) : emitValue v = some pb := by
+  cases h with
+  | none => exact emitValue_none
+  | byte hp => exact emit_hint2 _ hp
+
+theorem PostOk.hexLen {v : Value} {pb : Bytes} (h : PostOk v pb) : v.hexLen? = some (2 * pb.length) := by
+  cases h <;> rfl
+
+theorem opv_hexLen {c : Nat} (h : c < 65536) : (opv c).hexLen? = some (2 * opcodeLen c) := by
+  unfold opv opcodeLen
+  by_cases h1 : c < 256
+  · have : ¬ c > 255 := by omega
+    simp [h1, this, Value.hexLen?, numHexLen]
+  · have : c > 255 := by omega
+    simp [h1, this, Value.hexLen?, numHexLen_none_word (show 256 ≤ c by omega) h]
+
+/-- assembling the pieces when nothing follows the post byte: opcode cell `c`, post-byte bytes `pb` -/
 theorem encodes_of {o : Operand} {r : InstrRow} {operand : Spec.MC6809.Operand} {c : Nat} {am : AM}
-    {pkg : Pkg} {pb ad : Bytes}
+    {pkg : Pkg} {pb : Bytes}
     (hl : lookup c = some (opOf r.mnemonic, am))
     (ht : translateOperand o r = .ok pkg)
+    (hnr : pkg.needsRes = false)
     (hop : pkg.opCode = opv c)
     (hpb : emitValue pkg.postByte = some pb)
-    (had : emitValue pkg.additional = some ad)
+    (had : pkg.additional = .none)
+    (hsz : pkg.size = opcodeLen c + pb.length)
+    (hdec : decodeTail (opOf r.mnemonic) am (opcodeLen c) pb =
+      some (⟨opOf r.mnemonic, operand⟩, opcodeLen c + pb.length)) :
+    Encodes o r operand := by
+  have hc : c < 65536 := by rcases lookup_shape hl with h | h <;> omega
+  refine ⟨pkg, opcodeBytes c ++ pb, ht, hnr, ?_, ?_, ?_⟩
+  · refine emitted_of_fitPkg (fitPkg_nonNumeric r (by rw [had]; rfl)) ?_
+    have := pkgBytes_of (p := pkg) (by rw [hop]; exact emit_opv hc) hpb (by rw [had]; exact emitValue_none)
+    simpa using this
+  · simp [opcodeBytes_length, hsz]
+  · rw [decode_opcode hl, hdec]
+    simp [opcodeBytes_length]
+
+/-- assembling the pieces when a numeric field follows: the field is fitted to the width the size announces -/
+theorem encodes_of_fit {o : Operand} {r : InstrRow} {operand : Spec.MC6809.Operand} {c : Nat} {am : AM}
+    {pkg : Pkg} {pb ad : Bytes} {n : Nat} {h : Option Nat} {m : Mode} {neg : Bool}
+    (hp : r.isPseudo = false) (hsp : r.isSpecial = false)
+    (hl : lookup c = some (opOf r.mnemonic, am))
+    (ht : translateOperand o r = .ok pkg)
+    (hnr : pkg.needsRes = false)
+    (hop : pkg.opCode = opv c)
+    (hpb : PostOk pkg.postByte pb)
+    (had : pkg.additional = .numeric n h m neg)
+    (hfit : FieldFit n neg ad)
     (hsz : pkg.size = opcodeLen c + pb.length + ad.length)
     (hdec : decodeTail (opOf r.mnemonic) am (opcodeLen c) (pb ++ ad) =
       some (⟨opOf r.mnemonic, operand⟩, opcodeLen c + pb.length + ad.length)) :
     Encodes o r operand := by
   have hc : c < 65536 := by rcases lookup_shape hl with h | h <;> omega
-  refine ⟨pkg, opcodeBytes c ++ pb ++ ad, ht, ?_, ?_, ?_⟩
-  · intro s hs
-    subst hs
-    exact stmtBytes_of s (by rw [hop]; exact emit_opv hc) hpb had
+  obtain ⟨v, hv, hev⟩ := hfit.fit
+  have hrow : ((r.isPseudo && !(r.isMultiByte || r.isMultiWord)) || r.isSpecial) = false := by simp [hp, hsp]
+  have hf := fitPkg_numeric (d := 2 * ad.length) hrow had (by rw [hop]; exact opv_hexLen hc) hpb.hexLen
+    (by rw [hsz]; omega) hfit.digits
+  rw [hv] at hf
+  refine ⟨pkg, opcodeBytes c ++ pb ++ ad, ht, hnr, ?_, ?_, ?_⟩
+  · exact emitted_of_fitPkg hf (pkgBytes_of (by simp only [hop]; exact emit_opv hc) hpb.emit hev)
   · simp [opcodeBytes_length, hsz, Nat.add_assoc]
   · rw [List.append_assoc, decode_opcode hl, hdec]
     simp [opcodeBytes_length, Nat.add_assoc]
+
+/-- a field that does not fit: the statement is rejected by `fitWidth` (a diagnostic) -/
+theorem rejected_of_misfit {o : Operand} {r : InstrRow} {c : Nat} {x : String × AM}
+    {pkg : Pkg} {pb : Bytes} {n : Nat} {h : Option Nat} {m : Mode} {neg : Bool} {d : Nat}
+    (hp : r.isPseudo = false) (hsp : r.isSpecial = false)
+    (hl : lookup c = some x)
+    (hop : pkg.opCode = opv c)
+    (hpb : PostOk pkg.postByte pb)
+    (had : pkg.additional = .numeric n h m neg)
+    (hsz : 2 * pkg.size = 2 * opcodeLen c + 2 * pb.length + d) (hd : d = 2 ∨ d = 4)
+    (hmis : fitNum n neg d = .error .valueType) :
+    ∀ s : Stmt, s.row = r → s.operand = o → s.pkg = pkg → fitWidth s = .diag := by
+  have hc : c < 65536 := by rcases lookup_shape hl with h | h <;> omega
+  have hrow : ((r.isPseudo && !(r.isMultiByte || r.isMultiWord)) || r.isSpecial) = false := by simp [hp, hsp]
+  have hf := fitPkg_numeric (d := d) hrow had (by rw [hop]; exact opv_hexLen hc) hpb.hexLen hsz hd
+  rw [hmis] at hf
+  intro s hr _ hpk
+  subst hr hpk
+  exact fitWidth_diag hf
+
+/-! ### `fix_addresses` on a label-free statement -/
+
+/-- an operand that mentions no label: not a branch, and its value is neither a label, nor a label expression,
+nor Python `None` -/
+structure LabelFree (o : Operand) : Prop where
+  notRel : o.kind ≠ .relative
+  notNone : o.value ≠ .pyNone
+  notAddrExpr : o.value.isAddrExpr = false
+  notAddr : o.value.isAddress = false
+
+/-- `fix_addresses` (which runs between `translate` and `fit_operand_width`) leaves such a statement alone -/
+theorem fixOne_labelFree {s : Stmt} (hlf : LabelFree s.operand) (h3 : s.pkg.needsRes = false) (ss : List Stmt) (i : Nat) :
+    fixOne ss i s = .ok s := by
+  have hk : (s.operand.kind == .relative) = false := by simpa using hlf.notRel
+  unfold fixOne
+  rw [if_neg (by simp [hk])]
+  have hv := hlf.notNone
+  cases hval : s.operand.value with
+  | pyNone => exact absurd hval hv
+  | _ =>
+    have h1 := hlf.notAddrExpr; have h2 := hlf.notAddr
+    rw [hval] at h1 h2
+    simp_all [Value.isAddrExpr, Value.isAddress]
+
+/-- hence the step of `fixAll` on such a statement is `fitWidth` alone -/
+theorem fixStep_labelFree {s : Stmt} (hlf : LabelFree s.operand) (h3 : s.pkg.needsRes = false) (ss : List Stmt) (i : Nat) :
+    (match fixOne ss i s with | .ok s1 => fitWidth s1 | o => o) = fitWidth s := by
+  rw [fixOne_labelFree hlf h3]
+
+/-- **what is really emitted**: for a label-free operand the step of `fixAll` (`fix_addresses`, then
+`fit_operand_width`) on every statement carrying row, operand and package yields the bytes `Encodes` speaks about,
+whatever the other statements `ss` and the position `i` are -/
+theorem Encodes.through_fix {o : Operand} {r : InstrRow} {x : Spec.MC6809.Operand} (he : Encodes o r x)
+    (hlf : LabelFree o) :
+    ∃ pkg bytes, translateOperand o r = .ok pkg ∧
+      (∀ (ss : List Stmt) (i : Nat) (s : Stmt), s.row = r → s.operand = o → s.pkg = pkg →
+        ∃ s', (match fixOne ss i s with | .ok s1 => fitWidth s1 | o => o) = .ok s' ∧ stmtBytes s' = some bytes) ∧
+      bytes.length = pkg.size ∧ decode bytes = some (⟨opOf r.mnemonic, x⟩, bytes.length) := by
+  obtain ⟨pkg, bytes, ht, hnr, hb, hl, hd⟩ := he
+  refine ⟨pkg, bytes, ht, ?_, hl, hd⟩
+  intro ss i s hr ho hp
+  rw [fixStep_labelFree (by rw [ho]; exact hlf) (by rw [hp]; exact hnr)]
+  exact hb s hr ho hp
 
 /-! ### the table checker -/
 
